@@ -10,7 +10,8 @@ LEAN_MODULES = ["Sonic.Props.C04"]
 REQUIRED_THEOREMS = ["Sonic.Props.C04." + n for n in ["C04_tables", "C04_scan_grammar", "C04_int_kinds", "C04_accumulate", "C04_zero", "C04_fast_exact",
                                                          "C04_fast_path_correct", "Rne_monotone", "C04_retry_sound", "Rne_spec", "C04_el_correct",
                                                          "C04_el_path_correct", "C04_normalfast_correct", "C04_normalfast_path_correct", "C04_decimal_correct",
-                                                         "C04_decimal_shift_exact", "C04_native_path_correct", "C04_native_guard_needed"]]
+                                                         "C04_decimal_shift_exact", "C04_native_path_correct", "C04_native_guard_needed", "C04_parseNumber_correct", "C04_parseNumber_correct'",
+                                                         "C04_parseNumber_malformed", "C04_parseNumber_shape", "C04_parseNumber_congr", "C04_number_agrees_padded", "C04_native_never_faults"]]
 CONFIGS = [("avx2", "prod"), ("sse", "prod"), ("avx2", "san")]
 CONFIGS_THOROUGH = CONFIGS + [("dyn", "prod"), ("sse", "san")]
 RULE = ("number texts: for every decimal exponent -348..347 (every row of the power-of-ten table) mantissas 1, 2^53-1, 2^53+1, 10^16-1, "
